@@ -1223,17 +1223,13 @@ impl HelperAttributeKinds {
         }
     }
     fn is_match_cmp_attr(&self, op: CompareOp) -> bool {
+        // A helper attribute is recognized when any trait it affects is derived.
+        // See the table "which helper attributes affect which trait" in the documentation.
         match op {
-            CompareOp::Ord => {
-                self.ord
-                    || self.is_match_cmp_attr(CompareOp::PartialEq)
-                    || self.is_match_cmp_attr(CompareOp::Eq)
-            }
-            CompareOp::PartialOrd => {
-                self.partial_ord || self.is_match_cmp_attr(CompareOp::PartialEq)
-            }
-            CompareOp::Eq => self.eq || self.is_match_cmp_attr(CompareOp::PartialEq),
-            CompareOp::PartialEq => self.partial_eq,
+            CompareOp::Ord => self.ord || self.partial_ord || self.eq || self.partial_eq || self.hash,
+            CompareOp::PartialOrd => self.partial_ord || self.partial_eq,
+            CompareOp::Eq => self.eq || self.partial_eq || self.hash,
+            CompareOp::PartialEq => self.eq || self.partial_eq,
             CompareOp::Hash => self.hash,
         }
     }
